@@ -46,9 +46,18 @@ func goid() uint64 {
 	return id
 }
 
+// Ignore: goroutines with one of these frames are not considered (set by a runner after it has reported a call that
+// never terminates and had to leave its goroutine behind).
+var Ignore []string
+
 func relevant(g sched.G, self uint64) bool {
 	if g.ID == self {
 		return false
+	}
+	for _, ig := range Ignore {
+		if strings.Contains(g.Text, ig) {
+			return false
+		}
 	}
 	for _, m := range markers {
 		if strings.Contains(g.Text, m) {
